@@ -28,7 +28,7 @@ func verifBits(off int, v uint64, n uint) []c19wb.Edit {
 func TestVerifC19FLP(t *testing.T) {
 	defer vlib.Done()
 	sub := "flp/sum"
-	vlib.Check(t, vlib.N(600, 4000), func(t *rapid.T) {
+	vlib.Check(t, vlib.N(600, 2500), func(t *rapid.T) {
 		var max uint64
 		switch rapid.IntRange(0, 3).Draw(t, "max.k") {
 		case 0:
